@@ -155,7 +155,13 @@ pub fn gen_program(rng: &mut Rng, tier: Tier) -> Program {
             if rng.chance(0.3) {
                 let g = OpGen::new(rng, &t, 2);
                 let mut u = 0;
-                ops.insert(rng.below(2), g.data(rng, &mut u));
+                let extra = loop {
+                    let o = g.data(rng, &mut u);
+                    if !matches!(o, Op::Audit { .. }) {
+                        break o;
+                    }
+                };
+                ops.insert(rng.below(2), extra);
             }
             return Program { init: t, order, ops };
         }
@@ -184,7 +190,14 @@ pub fn gen_program(rng: &mut Rng, tier: Tier) -> Program {
                 }
                 o
             } else {
-                g.data(rng, &mut uniq)
+                // (the auditor reads every dart of the map, including the component reserved
+                // for the noise thread of leg b'': not a program that "cannot reach" it)
+                loop {
+                    let o = g.data(rng, &mut uniq);
+                    if !matches!(o, Op::Audit { .. }) {
+                        break o;
+                    }
+                }
             }
         };
         apply_on_model(&mut cur, &op);
